@@ -2,6 +2,7 @@
 import lingo_harness as H
 import lingo_spec as S
 
+NEEDS_SPEC = True       # the spec tie runs the extracted specification side (runner/specrun)
 BUDGET_S = {'quick': 150, 'thorough': 1500}
 BATCH = 150
 RULE = ('source scripts in the AST of the independent specification tie/lingo_spec.py, compiled with Director\'s scheme into '
@@ -17,7 +18,8 @@ RULE = ('source scripts in the AST of the independent specification tie/lingo_sp
         'expression of depth >= 2; distinct by SHA1 of the source.')
 EXPLANATION = ('Coq: compile/decompile inversion for the expression and statement core (unbounded), emitted text = canonical '
                'printer, printer/parser round trip on tokens; see coq/Props/PropC02.v.')
-TRUSTED_BASE = ['Coq 8.16.1 kernel; vm_compute for table lookups; no axioms',
+TRUSTED_BASE = ['spec tie: Spec/SpecIO.v (decoders, fill, boolean side conditions) extracted to runner/specrun (ExtrOcamlBasic, ExtrOcamlString); tie/spec_tie.py (conversion of the source AST, extraction of handler bodies from the emitted text)',
+                'Coq 8.16.1 kernel; vm_compute for table lookups; no axioms',
                 'hand-written model coq/Model/Lingo*.v, Lscr.v; dispatch and name tables regenerated from the imported package (tie/gen_lingo.py), Lscr record layouts from the source text (tie/gen_layouts.py)',
                 'the specification: coq/Spec/SpecLingo.v (source AST, Director scheme, canonical printer, parser) and its Python twin tie/lingo_spec.py used as oracle',
                 'codec (mac_roman decode + unicode_escape) and float printer enter the model as lookup tables computed by the running interpreter',
@@ -127,7 +129,15 @@ def judge(c, ir, ms):
         return out
     if ms is not None:
         if mt is None:
-            out.append(('model fails (%r) on a chunk the implementation decompiles' % (ms,), 'correspondence', None))
+            out.append(('model fails (%r) on a chunk the implementation decompiles' % (H.split_ms(ms)[0],), 'correspondence', None))
         elif mt[0] != lingo:
             out.append(('Lingo text differs from the model: ' + H.first_diff(lingo, mt[0]), 'correspondence', None))
+        out += H.spec_verdicts(c, ir, ms)
     return out
+
+def extra_evidence(tier):
+    """what the spec tie (tie/spec_tie.py) compared in this run"""
+    import spec_tie as ST
+    return {'spec_tie': dict(ST.STATS, what='handlers inside the fragment of the theorems: code = bytes of SpecFor.code2 (Coq, extracted) '
+                             'compared with the harness compiler; lingo / js = canonical texts pp_q / pp_js_q of the theorems compared with the '
+                             'text the implementation emits (only when the boolean side conditions of the theorems hold)')}
